@@ -6,6 +6,7 @@ open ClockBound
 #print axioms OnCode.C14_now_calls
 #print axioms OnCode.C14_now_snapshot_error
 #print axioms OnCode.C14_now_clock_error
+#print axioms OnCode.C14_now_clock_error_mono
 #print axioms OnCode.C17_now_same_answer
 #print axioms OnCode.C17_status_as_published
 #print axioms OnCode.C17_err_kind_as_published
